@@ -50,10 +50,10 @@ ImplHashSame(x, y) == ImplHashSameD(x, y, DevHashByRep)
 
 (* ------------------------------ machine T: as-built invariants ----------------------- *)
 (* constant tables (U is a constant) *)
-IEqTabD(bi, hr) == LET C == [i \in 1..NU |-> ICanon(U[i], bi, hr, FALSE, FALSE)]
-                   IN [i \in 1..NU |-> [j \in 1..NU |-> ~IsNaN(U[i]) /\ ~IsNaN(U[j]) /\ C[i] = C[j]]]
-IHsTabD(hr) == LET C == [i \in 1..NU |-> ICanon(U[i], TRUE, hr, TRUE, TRUE)]
-               IN [i \in 1..NU |-> [j \in 1..NU |-> C[i] = C[j]]]
+IEqTabD(bi, hr) == LET C == TLCEval([i \in 1..NU |-> ICanon(U[i], bi, hr, FALSE, FALSE)])
+                   IN TLCEval([i \in 1..NU |-> TLCEval([j \in 1..NU |-> ~IsNaN(U[i]) /\ ~IsNaN(U[j]) /\ C[i] = C[j]])])
+IHsTabD(hr) == LET C == TLCEval([i \in 1..NU |-> ICanon(U[i], TRUE, hr, TRUE, TRUE)])
+               IN TLCEval([i \in 1..NU |-> TLCEval([j \in 1..NU |-> C[i] = C[j]])])
 IEqTab == IEqTabD(DevBoolIsInt, DevHashByRep)
 IHsTab == IHsTabD(DevHashByRep)
 Refines == IEqTab[a][b] <=> EqI(a, b)
@@ -90,7 +90,9 @@ KC(p, mo) == CASE mo = "req" -> Canon(KeyVal(p))
                [] mo = "H" -> ICanon(KeyVal(p), FALSE, TRUE, TRUE, TRUE)
                [] mo = "BH" -> ICanon(KeyVal(p), TRUE, TRUE, TRUE, TRUE)
 (* the class of key number p under a keying: the first key position with the same class (a constant table) *)
-KCls == [mo \in Modes |-> [p \in 1..NK |-> CHOOSE q \in 1..NK : KC(q, mo) = KC(p, mo) /\ \A r \in 1..(q - 1) : KC(r, mo) # KC(p, mo)]]
+KCTab == TLCEval([mo \in Modes |-> TLCEval([p \in 1..NK |-> KC(p, mo)])])
+KCls == TLCEval([mo \in Modes |-> TLCEval([p \in 1..NK |->
+           CHOOSE q \in 1..NK : KCTab[mo][q] = KCTab[mo][p] /\ \A r \in 1..(q - 1) : KCTab[mo][r] # KCTab[mo][p]])])
 
 MSet(m, k, v) == [x \in DOMAIN m \cup {k} |-> IF x = k THEN v ELSE m[x]]
 MDel(m, k) == [x \in DOMAIN m \ {k} |-> m[x]]
@@ -98,7 +100,7 @@ EmptyMap == [x \in {} |-> 0]
 
 Idle == lm = [mo \in Modes |-> EmptyMap] /\ ls = [mo \in Modes |-> {}] /\ path = <<>> /\ used = <<>>
 InitTI == InitT /\ Idle                                   \* machine T inside this module
-NextTI == UNCHANGED <<a, b, c, lm, ls, path, used>>
+NextTI == NextT /\ UNCHANGED <<lm, ls, path, used>>
 InitL == /\ lm = [mo \in Modes |-> EmptyMap] /\ ls = [mo \in Modes |-> {}]
          /\ path = <<>> /\ used = <<>>
          /\ a = 1 /\ b = 1 /\ c = 1
